@@ -8,6 +8,9 @@ Aspects (they are the first component of every failure kind and the `aspect` tag
   batched_forward / batched_ladj / batched_inverse     batched call == per-slice calls
   tp_call / tp_value     TransformedParameter() / .tensor for the current value (initial and after an update)
   model_call       ReparameterizedTimeTreeModel() for the current value (initial and after an update)
+  inplace_value / inplace_call / inplace_model   history evaluate -> leaf tensors modified IN PLACE under
+                   torch.no_grad() (optimizer.step() style) -> fire_parameter_changed() -> evaluate: .tensor, the
+                   call and the tree model's call equal those of a fresh object built at the new values
 Sub-check `extreme` (element-wise and cumulative transforms, |x| up to 40, positives 1e-17..1e17, float64 and
 float32) compares with the documented formulas evaluated by mpmath at 60 digits on the exact floating-point inputs:
   x_forward        T(x) vs documented forward map
@@ -44,7 +47,8 @@ RULE = (
     "independent Taxa order and sampling dates isochronous / ages (min 0) / calendar years on a 0.5 grid "
     "(ties common). Every transform is obtained through the JSON route (TransformedParameter or "
     "ReparameterizedTimeTreeModel specification -> process_objects), x optionally split over two parameters "
-    "(CatParameter). Non-trivial = (dimension >= 2 or tree with >= 3 taxa) and x not the zero vector; "
+    "(CatParameter; the node-height ratio transform with ratios and root height in one single Parameter or as a "
+    "list of two), cache_size not given or given explicitly as 0 / 1 where the constructor accepts it. Non-trivial = (dimension >= 2 or tree with >= 3 taxa) and x not the zero vector; "
     "distinct = (class, options, topology/dates, batch shape, rounded x and x2 - both points are checked). "
     "Sub-check 'extreme': class in SoftPlus / CumSumSoftPlus / CumSumExp / CumSum / Log / TrilExpDiagonal / torch Exp / "
     "Sigmoid, dtype float64 or float32, dimension 1..8, elements from a mixture of [-40,40], its outer halves and "
@@ -73,6 +77,9 @@ ASSUMPTIONS = [
     "torch.max ties in DifferenceNodeHeightTransform (k=0) may be generated: the Jacobian stays unit-triangular "
     "whichever sub-gradient autograd takes, so the log-determinant is still 0",
     "transforms with their own Parameter arguments are not updated through those arguments (C11's subject)",
+    "an explicit cache_size is only written into a specification when every constructor argument before it is "
+    "also given (Affine gets event_dim=0, Difference k=0.0, Linear only with a bias): TransformedParameter.from_json "
+    "passes the listed arguments by position, so an omitted earlier argument would receive the cache size",
     "extreme regions: the reference is the documented formula in mpmath (60 digits) at the exact floating-point "
     "argument; tolerance = floor max(1,|G|) + 16 eps (|G_i| + sum_j |dG_i/dz_j||z_j|), floor 1e-8 (float64, the "
     "property's tolerance) / 1e-5 (float32): the second term is what a componentwise backward-stable evaluation "
@@ -146,6 +153,11 @@ def _batch(draw):
     return draw(st.sampled_from([[], [], [1], [2], [3], [4]]))
 
 
+def _cache():
+    """cache_size of the transform: not given (the constructor's default) or given explicitly as 0 / 1"""
+    return st.sampled_from([None, None, None, 0, 1])
+
+
 @st.composite
 def vector_cases(draw, classes=None):
     cls = draw(st.sampled_from(classes or VECTOR_CLASSES))
@@ -179,6 +191,9 @@ def vector_cases(draw, classes=None):
         c["par"] = {"parts": draw(st.sampled_from(COMPOSE_MENU)), "loc": draw(fl(-3.0, 3.0)),
                     "scale": draw(logu(0.1, 3.0)) * draw(sgn), "loc2": draw(fl(-3.0, 3.0)),
                     "scale2": draw(logu(0.1, 10.0)) * draw(sgn)}
+    c["cache"] = draw(_cache())
+    if cls == "LinearTransform" and not c["par"]["has_bias"]:
+        c["cache"] = None  # from_json passes arguments by position: cache_size would land in `bias`
     return c
 
 
@@ -294,6 +309,9 @@ def height_cases(draw, max_n=16):
     c["k"] = draw(logu(0.1, 50.0)) if param == "shift_k" else 0.0
     c["x"] = draw(_height_points(tree, param, rows))
     c["x2"] = draw(_height_points(tree, param, rows))
+    # ratios and root height of the TransformedParameter in one single Parameter, or as a list of two
+    c["single"] = draw(st.booleans())
+    c["cache"] = draw(_cache())
     return c
 
 
@@ -310,6 +328,7 @@ def rate_cases(draw, max_n=12):
     c["x"] = draw(_points(logu(1e-3, 1e3), rows, d))
     c["x2"] = draw(_points(logu(1e-3, 1e3), rows, d))
     c["mu"] = draw(logu(1e-3, 1e1))
+    c["cache"] = draw(_cache())
     return c
 
 
@@ -606,6 +625,10 @@ def vector_spec(c):
         s["parameters"] = {"weight": tt.P("weight", p["weight"])}
         if p["has_bias"]:
             s["parameters"]["bias"] = tt.P("bias", p["bias"])
+    if c.get("cache") is not None:
+        s.setdefault("parameters", {})["cache_size"] = c["cache"]
+        if cls == "AffineTransform":
+            s["parameters"]["event_dim"] = 0  # every argument before cache_size is given (positional passing)
     return s, ids, slices
 
 
@@ -620,7 +643,7 @@ def _compose(p):
         "sigmoid_affine": [SigmoidTransform(), A2],
         "affine_sigmoid_affine": [A1, SigmoidTransform(), A2],
     }[p["parts"]]
-    return ComposeTransform(parts)
+    return ComposeTransform(parts, cache_size=p.get("cache") or 0)
 
 
 def taxa_spec(tree):
@@ -653,27 +676,139 @@ def _key(c, X):
     return (k, [[round(v, 6) for v in r] for r in c["x"]], [[round(v, 6) for v in r] for r in c["x2"]])
 
 
+def _cache_tag(c):
+    return "default" if c.get("cache") is None else "explicit%d" % c["cache"]
+
+
+def _build_vector(c, rows):
+    cls = c["cls"]
+    cc = dict(c, x=rows)
+    if cls == "ComposeTransform":
+        tt.load_all()
+        from torchtree.core.parameter import TransformedParameter
+
+        xs, ids, slices = _xspec(cc, rows, c["batch"])
+        dic = {}
+        xobj = [tt.build(s, dic)[0] for s in xs] if isinstance(xs, list) else tt.build(xs, dic)[0]
+        tp = TransformedParameter("tp", xobj, _compose(dict(c["par"], cache=c.get("cache"))))
+    else:
+        spec, ids, slices = vector_spec(cc)
+        tp, dic = tt.build(spec)
+    return {"tp": tp, "dic": dic, "leaves": list(zip(ids, slices)), "model": None, "mleaves": []}
+
+
+def _build_heights(c, rows):
+    tree, param, batch = c["tree"], c["param"], c["batch"]
+    n = tree["n"]
+    cls = "GeneralNodeHeightTransform" if param == "ratio" else "DifferenceNodeHeightTransform"
+    model, dic = tt.build(tree_spec(tree, param, rows, batch))
+    tspec = {"id": "heights", "type": "TransformedParameter", "transform": FULL[cls]}
+    if param == "ratio":
+        mleaves = [("ratios", slice(0, n - 2)), ("root_height", slice(n - 2, None))]
+        if c.get("single"):
+            a = np.asarray(rows, dtype=float).reshape(len(rows), -1)
+            tspec.update(x=tt.P("ratios_root_height", _shape_rows(a.tolist(), batch)), parameters={"tree": "tree"})
+            leaves = [("ratios_root_height", slice(None))]
+        else:
+            tspec.update(x=["ratios", "root_height"], parameters={"tree": "tree"})
+            leaves = list(mleaves)
+    else:
+        tspec.update(x="shifts", parameters={"tree_model": "tree"})
+        leaves = mleaves = [("shifts", slice(None))]
+        if param == "shift_k":
+            tspec["parameters"]["k"] = c["k"]
+    if c.get("cache") is not None:
+        tspec["parameters"].setdefault("k", 0.0) if param != "ratio" else None
+        tspec["parameters"]["cache_size"] = c["cache"]
+    tp, _ = tt.build(tspec, dic)
+    return {"tp": tp, "dic": dic, "leaves": leaves, "model": model if param != "shift_k" else None,
+            "mleaves": mleaves, "tree_model": model}
+
+
+def _build_rates(c, rows):
+    cls, batch = c["cls"], c["batch"]
+    model, dic = tt.build(tree_spec(c["tree"], "ratio", [c["heights"]], []))
+    tspec = {"id": "tp", "type": "TransformedParameter", "transform": cls if c["short"] else FULL[cls],
+             "x": tt.P("x", _shape_rows(rows, batch)), "parameters": {"tree_model": "tree"}}
+    if cls == "RescaledRateTransform":
+        tspec["parameters"]["rate"] = tt.P("mu", [c["mu"]])
+    if c.get("cache") is not None:
+        tspec["parameters"]["cache_size"] = c["cache"]
+    tp, _ = tt.build(tspec, dic)
+    return {"tp": tp, "dic": dic, "leaves": [("x", slice(None))], "model": None, "mleaves": []}
+
+
+def _set_all(b, x):
+    seen = set()
+    for i, s in b["leaves"] + b["mleaves"]:
+        if i not in seen:
+            seen.add(i)
+            b["dic"][i].tensor = x[..., s].clone()
+
+
+def check_inplace(res, build, c, labels):
+    """history: evaluate -> the leaf tensors are modified IN PLACE (what optimizer.step() does, under
+    torch.no_grad()) -> fire_parameter_changed() on each leaf (what torchtree's Optimizer does next) -> evaluate;
+    the value and the log-Jacobian must be those of a fresh object built at the new values"""
+    X2 = _T(c["x2"], c["batch"])
+    b = build(c["x"])
+    tp, model = b["tp"], b["model"]
+    _try(lambda: tp.tensor)
+    _try(lambda: tp())
+    if model is not None:
+        _try(lambda: model())
+    leaves, seen = [], set()
+    for i, s in b["leaves"] + b["mleaves"]:
+        if i not in seen:
+            seen.add(i)
+            leaves.append((b["dic"][i], s))
+    with torch.no_grad():
+        for p, s in leaves:
+            p.tensor.copy_(X2[..., s])
+    for p, s in leaves:
+        p.fire_parameter_changed()
+    got_l, el = _try(lambda: tp())
+    got_v, ev = _try(lambda: tp.tensor)
+    got_m, em = _try(lambda: model()) if model is not None else (None, None)
+    f = build(c["x2"])
+    want_v, e1 = _try(lambda: f["tp"].tensor)
+    want_l, e2 = _try(lambda: f["tp"]())
+    d = {"x": c["x"], "x2": c["x2"]}
+    if e1 is None and not _notprov(want_v):
+        if ev is not None or _notprov(got_v):
+            _fail(res, "inplace_value", "not_provided", d, ev)
+        elif not _close(got_v, want_v):
+            _fail(res, "inplace_value", "mismatch", dict(d, tensor=got_v.tolist(), fresh=want_v.tolist()))
+    if e2 is None and not _notprov(want_l):
+        if el is not None or _notprov(got_l):
+            _fail(res, "inplace_call", "not_provided", d, el)
+        elif not _close(got_l, want_l):
+            _fail(res, "inplace_call", "mismatch", dict(d, called=got_l.tolist(), fresh=want_l.tolist()))
+    if model is not None:
+        want_m, e3 = _try(lambda: f["model"]())
+        if e3 is None and not _notprov(want_m):
+            if em is not None or _notprov(got_m):
+                _fail(res, "inplace_model", "not_provided", d, em)
+            elif not _close(got_m, want_m):
+                _fail(res, "inplace_model", "mismatch", dict(d, called=got_m.tolist(), fresh=want_m.tolist()))
+    labels.add("inplace:checked")
+
+
 # --------------------------------------------------------------------------- bodies
 def body_vector(c):
     cls = c["cls"]
     batch = c["batch"]
     X, X2 = _T(c["x"], batch), _T(c["x2"], batch)
     labels = {cls, "batch%d" % len(batch), "split" if c.get("split") else "single"}
-    res = Res(nontrivial=c["d"] >= 2 and _nontrivial_x(X), key=_key(c, X), tags={"cls": cls})
+    res = Res(nontrivial=c["d"] >= 2 and _nontrivial_x(X), key=_key(c, X), tags={"cls": cls, "cache": _cache_tag(c)})
+    labels.add("cache:" + _cache_tag(c))
+    b = _build_vector(c, c["x"])
+    tp, dic = b["tp"], b["dic"]
+    ids, slices = [i for i, _ in b["leaves"]], [sl for _, sl in b["leaves"]]
     if cls == "ComposeTransform":
-        tt.load_all()
-        from torchtree.core.parameter import TransformedParameter
-
-        xs, ids, slices = _xspec(c, c["x"], batch)
-        dic = {}
-        xobj = [tt.build(s, dic)[0] for s in xs] if isinstance(xs, list) else tt.build(xs, dic)[0]
-        tp = TransformedParameter("tp", xobj, _compose(c["par"]))
         labels.add("compose:" + c["par"]["parts"])
-    else:
-        spec, ids, slices = vector_spec(c)
-        tp, dic = tt.build(spec)
-        if cls in REGISTERED_SHORT:
-            labels.add("short_name" if c.get("short") else "full_name")
+    elif cls in REGISTERED_SHORT:
+        labels.add("short_name" if c.get("short") else "full_name")
     T = tp.transform
     if type(T).__name__ != cls:
         _fail(res, "build", "class", {"built": type(T).__name__})
@@ -682,6 +817,8 @@ def body_vector(c):
     if X2.shape == X.shape:
         check_transform(res, cls, T, X2, batch, labels, forward_ref_of(c))
     check_tp(res, tp, _setter(dic, ids, slices), X, X2)
+    if X2.shape == X.shape:
+        check_inplace(res, lambda rows: _build_vector(c, rows), c, labels)
     res.labels = tuple(sorted(labels))
     return res
 
@@ -692,19 +829,16 @@ def body_heights(c):
     cls = "GeneralNodeHeightTransform" if param == "ratio" else "DifferenceNodeHeightTransform"
     X, X2 = _T(c["x"], batch), _T(c["x2"], batch)
     labels = {cls, param, "batch%d" % len(batch), "dates:" + tree["mode"], _band(n)}
-    res = Res(nontrivial=n >= 3 and _nontrivial_x(X), key=_key(c, X), tags={"cls": cls, "param": param})
-    model, dic = tt.build(tree_spec(tree, param, c["x"], batch))
-    tspec = {"id": "heights", "type": "TransformedParameter", "transform": FULL[cls]}
+    res = Res(nontrivial=n >= 3 and _nontrivial_x(X), key=_key(c, X),
+              tags={"cls": cls, "param": param, "cache": _cache_tag(c)})
+    labels.add("cache:" + _cache_tag(c))
     if param == "ratio":
-        tspec.update(x=["ratios", "root_height"], parameters={"tree": "tree"})
-        ids, slices = ["ratios", "root_height"], [slice(0, n - 2), slice(n - 2, None)]
-    else:
-        tspec.update(x="shifts", parameters={"tree_model": "tree"})
-        ids, slices = ["shifts"], [slice(None)]
-        if param == "shift_k":
-            tspec["parameters"]["k"] = c["k"]
-    tp, _ = tt.build(tspec, dic)
-    setx = _setter(dic, ids, slices)
+        labels.add("x:single_parameter" if c.get("single") else "x:list")
+    b = _build_heights(c, c["x"])
+    model, tp, dic = b["tree_model"], b["tp"], b["dic"]
+
+    def setx(x):
+        _set_all(b, x)
     T = tp.transform
     if type(T).__name__ != cls or (param != "shift_k" and type(model.transform).__name__ != cls):
         _fail(res, "build", "class", {"built": [type(T).__name__, type(model.transform).__name__]})
@@ -743,6 +877,7 @@ def body_heights(c):
         labels.add("model_call:checked")
         setx(X)
     check_tp(res, tp, setx, X, X2)
+    check_inplace(res, lambda rows: _build_heights(c, rows), c, labels)
     res.labels = tuple(sorted(labels))
     return res
 
@@ -752,13 +887,10 @@ def body_rates(c):
     n = tree["n"]
     X, X2 = _T(c["x"], batch), _T(c["x2"], batch)
     labels = {cls, "batch%d" % len(batch), "dates:" + tree["mode"], _band(n)}
-    res = Res(nontrivial=n >= 3 and _nontrivial_x(X), key=_key(c, X), tags={"cls": cls})
-    model, dic = tt.build(tree_spec(tree, "ratio", [c["heights"]], []))
-    tspec = {"id": "tp", "type": "TransformedParameter", "transform": cls if c["short"] else FULL[cls],
-             "x": tt.P("x", _shape_rows(c["x"], batch)), "parameters": {"tree_model": "tree"}}
-    if cls == "RescaledRateTransform":
-        tspec["parameters"]["rate"] = tt.P("mu", [c["mu"]])
-    tp, _ = tt.build(tspec, dic)
+    res = Res(nontrivial=n >= 3 and _nontrivial_x(X), key=_key(c, X), tags={"cls": cls, "cache": _cache_tag(c)})
+    labels.add("cache:" + _cache_tag(c))
+    b = _build_rates(c, c["x"])
+    tp, dic = b["tp"], b["dic"]
     T = tp.transform
     ref = None
     if cls == "LogDifferenceRateTransform":
@@ -772,6 +904,7 @@ def body_rates(c):
     check_transform(res, cls, T, X, batch, labels, ref, sort_forward=True)
     check_transform(res, cls, T, X2, batch, labels, ref, sort_forward=True)
     check_tp(res, tp, _setter(dic, ["x"], [slice(None)]), X, X2)
+    check_inplace(res, lambda rows: _build_rates(c, rows), c, labels)
     res.labels = tuple(sorted(labels))
     return res
 
